@@ -103,7 +103,8 @@ func (r *Rng) I32b() int32 {
 	return int32(r.U64())
 }
 
-var textAlphabet = []string{"a", "B", "7", " ", "-", ":", "=", ",", "#", "é", "漢", "\t", "/", "0"}
+var textAlphabet = []string{"a", "B", "7", " ", "-", ":", "=", ",", "#", "é", "漢", "\t", "/", "0",
+	"%", "%d", "%s", "\\", "\"", "'", "$", "{", "}", "<", ">", "&", "+", "*", "(", ")", "[", "]", "?", "!", "@", "~", "^", "`", ";", ".", "_"}
 var nastyAlphabet = []string{"|", "\n", "\r", "\x00", "\xff", "\xc2", "||", " ", " "}
 
 // mostly protocol-clean strings; p(nasty) small
